@@ -1,11 +1,16 @@
 (* C16 — puzzle URL codecs round-trip and agree with the puzz.link / pzv format.
-   Only final statements here; proofs are in Codec/UrlProofs.v, Codec/PuzzleProofs.v.
+   Only final statements here; proofs are in Codec/UrlProofs.v, PuzzleProofs.v, LegacyProofs.v, LegacyEq.v,
+   PzprProofs.v, YajilinProofs.v, PzprYajilin.v, SegmentationEq.v, PzprBorders.v, PzprNumber16.v, PzprSlither.v,
+   PzprMasyu.v, PzprCompass.v, PzprHeyawake.v and (C15's) RoomsProofs.v, RoomsDischarge.v.
    Gen/Codecs.v is regenerated from cspuz/puzzle/*.py on every run (harness/c16trans.py):
    the statements about <P>_COMBINATOR / serialize_<p>_w / deserialize_<p>_w below are
    obligations about the code as it is now. *)
 From Coq Require Import ZArith List Ascii Bool Lia Sorting.Permutation.
 From Cspuz Require Import Lib.PyErr Codec.Comb Codec.CombWf Codec.CombRoundTrip Codec.Legacy Codec.LegacyProofs Codec.LegacyEq Codec.Pzpr Codec.PzprProofs Codec.Url
-  Codec.UrlProofs Codec.Yajilin Codec.Puzzles Codec.SerChars Codec.PuzzleProofs Gen.Codecs.
+  Codec.UrlProofs Codec.Yajilin Codec.Puzzles Codec.SerChars Codec.PuzzleProofs Gen.Codecs
+  Codec.RoomsGrid Codec.RoomsFill Codec.RoomsProofs Codec.RoomsDischarge
+  Codec.YajilinProofs Codec.PzprYajilin Codec.SegmentationEq Codec.PzprBorders Codec.PzprNumber16
+  Codec.PzprSlither Codec.PzprMasyu Codec.PzprCompass Codec.PzprHeyawake Codec.GridTotal.
 Import ListNotations.
 Local Open Scope Z_scope.
 
@@ -199,19 +204,64 @@ Proof.
 Qed.
 Print Assumptions heyawake_roundtrip_canonical.
 
-(* ------------------------------------------------------------------ yajilin (Combinator subclass YajilinClue) *)
-(* C15's general theorem does not cover Combinator subclasses.  The body-level round trip
-   of yajilin's term is the statement below (not proved; tied and searched on every run:
-   all clue kinds incl. "??", values 0..4095, boards up to 17x16 / 1x80).  Its URL level
-   then follows from url_from_body_roundtrip (wrappers consistent, no newline: proved above). *)
-Definition yajilin_cell_ok (v : pv) : Prop :=
-  v = VStr s_dotdot \/ v = VStr s_qq \/
-  exists c d n, dir_code c = Ok d /\ 0 <= n <= 4095 /\ v = VStr (c :: py_str_int n).
+(* The two premises above are theorems now (C15: Codec/RoomsTotal.v rooms_roundtrip_proof, Codec/RoomsValued.v
+   valued_rooms_roundtrip_proof; composed in Codec/RoomsDischarge.v).  Unconditionally: serialize_lits /
+   serialize_norinori succeed on EVERY partition of every h x w board (h, w >= 1) into connected rooms, listed
+   in any order of rooms and cells; the URL is prefix name/w/h/body and deserialize_<p> returns
+   (h, w, the canonical listing of the same partition). *)
+Theorem rooms_codecs_roundtrip_any_order :
+  forall sw dw, (sw = serialize_lits_w /\ dw = deserialize_lits_w) \/ (sw = serialize_norinori_w /\ dw = deserialize_norinori_w) ->
+  forall h w rs, 1 <= h -> 1 <= w -> valid_rooms h w rs ->
+  exists body rs',
+    run_ser_sized no_custom sw h w (rooms_to_pv rs) = Ok (make_url default_prefix (sw_puzzle sw) h w body) /\
+    canonical_rooms h w rs' /\ rooms_equiv rs rs' /\
+    run_de no_custom dw (make_url default_prefix (sw_puzzle sw) h w body) = Ok (Some (VTup [VInt h; VInt w; rooms_to_pv rs'])).
+Proof. exact rooms_codecs_roundtrip_unconditional. Qed.
+Print Assumptions rooms_codecs_roundtrip_any_order.
 
-Definition yajilin_body_roundtrip_statement : Prop :=
-  forall h w pb rows, 1 <= h -> 1 <= w -> grid_shape h w pb rows -> Forall (Forall yajilin_cell_ok) rows ->
+(* heyawake: rooms (and cells) in any order; every clue comes back with its room *)
+Theorem heyawake_roundtrip_any_order :
+  forall h w rs vs body, 1 <= h -> 1 <= w -> valid_rooms h w rs -> length vs = length rs ->
+  serialize_problem_cu no_custom HEYAWAKE_COMBINATOR (VTup [rooms_to_pv rs; VList vs]) h w = Ok body ->
+  exists ps rs',
+    Permutation ps (combine rs vs) /\ Forall2 (fun p r' => Permutation (fst p) r') ps rs' /\ canonical_rooms h w rs' /\
+    run_ser_sized no_custom serialize_heyawake_w h w (VTup [rooms_to_pv rs; VList vs])
+      = Ok (make_url default_prefix (sw_puzzle serialize_heyawake_w) h w body) /\
+    run_de no_custom deserialize_heyawake_w (make_url default_prefix (sw_puzzle serialize_heyawake_w) h w body)
+      = Ok (Some (VTup [VInt h; VInt w; VTup [rooms_to_pv rs'; VList (map snd ps)]])).
+Proof. exact heyawake_roundtrip_unconditional. Qed.
+Print Assumptions heyawake_roundtrip_any_order.
+
+(* ------------------------------------------------------------------ yajilin (Combinator subclass YajilinClue) *)
+(* C15's general theorem does not cover Combinator subclasses; Codec/YajilinProofs.v shows directly that the
+   cell coder OneOf(YajilinClue(), Spaces("..", "a")) meets the hypotheses of C15's generic Seq-loop theorem.
+   Domain (YajilinProofs.yajilin_cell_ok): a cell is "..", "??" or an arrow character ^ v < > followed by the
+   decimal text of a number 0..4095 (all three pzpr forms D H, D+5 HH, -D HHH).
+   Body level, for ALL board sizes (also 0 rows): serialize_problem succeeds and deserialize_problem returns
+   the problem. *)
+Theorem yajilin_body_roundtrip :
+  forall h w pb rows, grid_shape h w pb rows -> Forall (Forall yajilin_cell_ok) rows ->
   exists body, serialize_problem_cu yajilin_custom YAJILIN_COMBINATOR pb h w = Ok body /\
                deserialize_problem_cu yajilin_custom YAJILIN_COMBINATOR body h w = Ok (Some pb).
+Proof. exact yajilin_body_roundtrip_gen. Qed.
+Print Assumptions yajilin_body_roundtrip.
+
+(* URL level: serialize_yajilin(problem) = https://puzz.link/p?yajilin/<w>/<h>/<body> and deserialize_yajilin
+   of that URL returns the problem, for every h x w board (h, w >= 1) of the domain. *)
+Theorem yajilin_roundtrip :
+  forall h w pb rows, 1 <= h -> 1 <= w -> grid_shape h w pb rows -> Forall (Forall yajilin_cell_ok) rows ->
+  exists body,
+    serialize_problem_cu yajilin_custom YAJILIN_COMBINATOR pb h w = Ok body /\
+    deserialize_problem_cu yajilin_custom YAJILIN_COMBINATOR body h w = Ok (Some pb) /\
+    run_ser_problem yajilin_custom serialize_yajilin_w pb
+      = Ok (make_url default_prefix (sw_puzzle serialize_yajilin_w) h w body) /\
+    run_de yajilin_custom deserialize_yajilin_w (make_url default_prefix (sw_puzzle serialize_yajilin_w) h w body)
+      = Ok (Some pb).
+Proof.
+  pose proof generated_wrappers_consistent as (_ & _ & _ & _ & _ & H6 & _).
+  exact (fun h w pb rows => yajilin_url_roundtrip_gen serialize_yajilin_w deserialize_yajilin_w h w pb rows eq_refl H6 eq_refl).
+Qed.
+Print Assumptions yajilin_roundtrip.
 
 (* ------------------------------------------------------------------ compass (legacy encoder + hand-written parser) *)
 (* For every board size h x w (h, w >= 0, square or not) and every list of clues
@@ -287,21 +337,33 @@ Theorem segmentation_bitmap_eq :
 Proof. intros env F H. exists (cbs (length F) F). exact (bitmap_text_eq env F H). Qed.
 Print Assumptions segmentation_bitmap_eq.
 
-(* the whole-function form (flags computed from the same room ids on both sides) is not proved;
-   it is searched on every run (kind legacy-eq:lits/norinori/heyawake/aquarium, star_battle) *)
-Definition zcell (c : cell) : Z * Z := (Z.of_nat (fst c), Z.of_nat (snd c)).
-Definition segmentation_eq_rooms_statement : Prop :=
+(* the whole functions: for every partition rs of every h x w board (h, w >= 1) into connected rooms, in any
+   order, with block_id = util.blocks_to_block_id(h, w, rs) (zcell turns a cell into the pair of Python ints):
+   util.encode_grid_segmentation(h, w, block_id) and serialize_problem(Rooms(), rs) return the same text *)
+Theorem segmentation_eq_rooms :
   forall h w rs bid, 1 <= h -> 1 <= w -> valid_rooms h w rs ->
     blocks_to_block_id h w (map (map zcell) rs) = Ok bid ->
     exists text, encode_grid_segmentation h w bid = Ok text /\
                  serialize_problem (Rooms false false) (rooms_to_pv rs) h w = Ok text.
+Proof. exact segmentation_eq_rooms_proof. Qed.
+Print Assumptions segmentation_eq_rooms.
+
+(* stronger: blocks_to_block_id succeeds as well, and the common text is explicit: the flags "cells (y, x) and
+   (y, x+1) lie in different rooms" row-major, then "(y, x) and (y+1, x) lie in different rooms" row-major, each
+   sequence in groups of five (SegmentationEq.rooms_text), whatever Rooms' two options are *)
+Theorem segmentation_eq_rooms_explicit :
+  forall h w rs, 1 <= h -> 1 <= w -> valid_rooms h w rs ->
+    exists bid, blocks_to_block_id h w (map (map zcell) rs) = Ok bid /\
+      encode_grid_segmentation h w bid = Ok (rooms_text (Z.to_nat h) (Z.to_nat w) rs) /\
+      forall skip allow, serialize_problem (Rooms skip allow) (rooms_to_pv rs) h w = Ok (rooms_text (Z.to_nat h) (Z.to_nat w) rs).
+Proof. exact segmentation_eq_rooms_total. Qed.
+Print Assumptions segmentation_eq_rooms_explicit.
 
 (* ------------------------------------------------------------------ agreement with the independent pzpr decoder *)
 (* sudoku (and any use of util.encode_array(empty=0)): for every h x w board (h, w >= 1) with
    cells in 0..4095 (0 = empty), the body serialize_sudoku writes is read back by the
    independent pzpr decoder (decodeNumber16, Codec/Pzpr.v) as exactly that board, the whole
-   body being consumed.  The other formats (4-cell, circle, arrow-number, borders, room
-   numbers, ex-cells) agree with their independent decoders on every run of the search only. *)
+   body being consumed.  The other formats follow below. *)
 Theorem sudoku_pzpr_agrees :
   forall rows w, rows <> [] -> (0 < w)%nat ->
     Forall (fun r => length r = w) rows -> Forall (Forall scell_ok) rows ->
@@ -319,3 +381,215 @@ Proof.
   split; [exact H2|]. split; [exact H1|]. apply pzpr_sudoku_reads; assumption.
 Qed.
 Print Assumptions sudoku_pzpr_agrees.
+
+(* nurikabe: cells -1 ("?"), 0 (empty), 1..4095; the body is read by decodeNumber16 ('.' = "?") and the nurikabe
+   reading of a pzpr board as exactly the problem, the whole body being consumed; all sizes h, w >= 1 *)
+Theorem nurikabe_pzpr_agrees :
+  forall rows w, rows <> [] -> (0 < w)%nat ->
+    Forall (fun r => length r = w) rows -> Forall (Forall nurikabe_cell_ok) rows ->
+    exists body,
+      serialize_problem NURIKABE_COMBINATOR (VList (int_rows rows)) (Z.of_nat (length rows)) (Z.of_nat w) = Ok body /\
+      pzpr_decode_nurikabe (length rows) w body = Some (VList (int_rows rows)).
+Proof. exact nurikabe_pzpr_reads. Qed.
+Print Assumptions nurikabe_pzpr_agrees.
+
+(* nurimisaki: cells -1 (empty), 0 (circle without number, '.'), 1..4095 *)
+Theorem nurimisaki_pzpr_agrees :
+  forall rows w, rows <> [] -> (0 < w)%nat ->
+    Forall (fun r => length r = w) rows -> Forall (Forall nurimisaki_cell_ok) rows ->
+    exists body,
+      serialize_problem NURIMISAKI_COMBINATOR (VList (int_rows rows)) (Z.of_nat (length rows)) (Z.of_nat w) = Ok body /\
+      pzpr_decode_nurimisaki (length rows) w body = Some (VList (int_rows rows)).
+Proof. exact nurimisaki_pzpr_reads. Qed.
+Print Assumptions nurimisaki_pzpr_agrees.
+
+(* slitherlink: cells -1 (no clue) or 0..4; decode4Cell (number, number + one empty cell, number + two empty
+   cells, runs of 1..20 empty cells in one character each) *)
+Theorem slitherlink_pzpr_agrees :
+  forall rows w, rows <> [] -> (0 < w)%nat ->
+    Forall (fun r => length r = w) rows -> Forall (Forall slither_cell_ok) rows ->
+    exists body,
+      serialize_problem SLITHERLINK_COMBINATOR (VList (int_rows rows)) (Z.of_nat (length rows)) (Z.of_nat w) = Ok body /\
+      pzpr_decode_slitherlink (length rows) w body = Some (VList (int_rows rows)).
+Proof. exact slitherlink_pzpr_reads. Qed.
+Print Assumptions slitherlink_pzpr_agrees.
+
+(* masyu: cells 0 / 1 (white) / 2 (black); decodeCircle (three cells per base-27 character, last one padded) *)
+Theorem masyu_pzpr_agrees :
+  forall rows w, rows <> [] -> (0 < w)%nat ->
+    Forall (fun r => length r = w) rows -> Forall (Forall masyu_cell_ok) rows ->
+    exists body,
+      serialize_problem MASYU_COMBINATOR (VList (int_rows rows)) (Z.of_nat (length rows)) (Z.of_nat w) = Ok body /\
+      pzpr_decode_masyu (length rows) w body = Some (VList (int_rows rows)).
+Proof. exact masyu_pzpr_reads. Qed.
+Print Assumptions masyu_pzpr_agrees.
+
+(* yajilin: whatever body the term writes for a board of the domain (h, w >= 1), decodeArrowNumber16 and the
+   yajilin reading of a pzpr board ("^ v < >" + decimal number, "??", "..") give the problem back *)
+Theorem yajilin_pzpr_agrees :
+  forall h w pb rows body, 1 <= h -> 1 <= w -> grid_shape h w pb rows -> Forall (Forall yajilin_cell_ok) rows ->
+    serialize_problem_cu yajilin_custom YAJILIN_COMBINATOR pb h w = Ok body ->
+    pzpr_decode_yajilin (Z.to_nat h) (Z.to_nat w) body = Some pb.
+Proof. exact yajilin_pzpr_reads. Qed.
+Print Assumptions yajilin_pzpr_agrees.
+
+(* compass (legacy encoder): the body of to_puzz_link_url is read by the independent decoder (four number16
+   tokens up/down/left/right per clue cell, runs of clue-less cells) as the same clues in row-major order;
+   pzpr_clue reorders cspuz's (up, left, down, right) to pzpr's (up, down, left, right); all sizes h, w >= 0 *)
+Theorem compass_pzpr_agrees :
+  forall h w pos, 0 <= h -> 0 <= w -> compass_clues_ok h w pos ->
+    exists body, compass_body h w pos = Ok body /\
+      to_puzz_link_url h w pos = Ok (compass_prefix ++ py_str_int w ++ slash ++ py_str_int h ++ slash ++ body) /\
+      pzpr_decode_compass (Z.to_nat h) (Z.to_nat w) body = Some (map pzpr_clue pos).
+Proof. exact compass_pzpr_reads. Qed.
+Print Assumptions compass_pzpr_agrees.
+
+(* lits / norinori (Rooms): for every partition of every h x w board (h, w >= 1) into connected rooms, in any
+   order, decodeBorder reads the body back as the border flags of the partition: flag y*(w-1)+x of the first
+   list is 1 iff (y, x) and (y, x+1) lie in different rooms, flag y*w+x of the second iff (y, x) and (y+1, x) do
+   (PzprBorders.vg_flag / hg_flag); the whole body is consumed *)
+Theorem rooms_pzpr_agrees_all :
+  forall h w rs, 1 <= h -> 1 <= w -> valid_rooms h w rs ->
+    serialize_problem LITS_COMBINATOR (rooms_to_pv rs) h w = Ok (rooms_text (Z.to_nat h) (Z.to_nat w) rs) /\
+    serialize_problem NORINORI_COMBINATOR (rooms_to_pv rs) h w = Ok (rooms_text (Z.to_nat h) (Z.to_nat w) rs) /\
+    pzpr_decode_rooms (Z.to_nat h) (Z.to_nat w) (rooms_text (Z.to_nat h) (Z.to_nat w) rs)
+      = Some (concat (vg (Z.to_nat h) (Z.to_nat w) (rid_of rs)), concat (hg (Z.to_nat h) (Z.to_nat w) (rid_of rs))).
+Proof.
+  intros h w rs Hh Hw Hv. destruct (rooms_pzpr_agrees_whole h w rs Hh Hw Hv) as [H1 H2].
+  split; [exact H1|]. split; [exact H1|exact H2].
+Qed.
+Print Assumptions rooms_pzpr_agrees_all.
+
+Theorem border_flags_meaning :
+  forall H W rid,
+    (forall y x, (y < H)%nat -> (x < W - 1)%nat ->
+       nth (y * (W - 1) + x) (concat (vg H W rid)) 0 = (if rid (y, x) =? rid (y, (x + 1)%nat) then 0 else 1)) /\
+    (forall y x, (y < H - 1)%nat -> (x < W)%nat ->
+       nth (y * W + x) (concat (hg H W rid)) 0 = (if rid (y, x) =? rid ((y + 1)%nat, x) then 0 else 1)).
+Proof. intros H W rid. split; [exact (vg_flag H W rid)|exact (hg_flag H W rid)]. Qed.
+Print Assumptions border_flags_meaning.
+
+(* heyawake: rooms in ANY order with clues -1 (none) or 0..4095: decodeBorder reads the first part of the body as
+   the border flags of the partition and decodeRoomNumber16 reads the rest, entirely, as the clues of the rooms
+   in pzpr's room order (by least row-major cell), each clue with its room *)
+Theorem heyawake_pzpr_agrees :
+  forall h w rs l,
+    1 <= h -> 1 <= w -> valid_rooms h w rs -> length l = length rs -> Forall (fun v => -1 <= v <= 4095) l ->
+    exists body rest,
+      serialize_problem HEYAWAKE_COMBINATOR (VTup [rooms_to_pv rs; VList (map VInt l)]) h w = Ok body /\
+      pzpr_decode_heyawake_borders (Z.to_nat h) (Z.to_nat w) body
+        = Some (concat (vg (Z.to_nat h) (Z.to_nat w) (rid_of rs)), concat (hg (Z.to_nat h) (Z.to_nat w) (rid_of rs)), rest) /\
+      pzpr_decode_room_numbers (length rs) rest = Some (map snd (by_least_cell (combine rs l))).
+Proof. exact heyawake_pzpr_reads. Qed.
+Print Assumptions heyawake_pzpr_agrees.
+
+(* aquarium (legacy encoders blocks_to_block_id + encode_grid_segmentation + encode_array): decodeBorder, "/",
+   decodeNumber16ExCell over the w column clues followed by the h row clues (-1 = none) *)
+Theorem aquarium_pzpr_agrees :
+  forall h w rs clue_row clue_col,
+    1 <= h -> 1 <= w -> valid_rooms h w rs ->
+    length clue_col = Z.to_nat w -> length clue_row = Z.to_nat h ->
+    Forall (fun v => -1 <= v <= 4095) (clue_col ++ clue_row) ->
+    exists body,
+      aquarium_url h w (map (map zcell) rs) clue_row clue_col
+        = Ok (aquarium_prefix ++ py_str_int w ++ slash ++ py_str_int h ++ slash ++ body) /\
+      pzpr_decode_aquarium (Z.to_nat h) (Z.to_nat w) body
+        = Some (concat (vg (Z.to_nat h) (Z.to_nat w) (rid_of rs)), concat (hg (Z.to_nat h) (Z.to_nat w) (rid_of rs)),
+                clue_col ++ clue_row).
+Proof. exact aquarium_pzpr_reads. Qed.
+Print Assumptions aquarium_pzpr_agrees.
+
+(* star battle (legacy encoder): "n/n/k/" then the border bitmap of the block-id grid of the partition *)
+Theorem starbattle_pzpr_agrees :
+  forall n k rs, 1 <= n -> valid_rooms n n rs ->
+    exists bid text,
+      blocks_to_block_id n n (map (map zcell) rs) = Ok bid /\
+      starbattle_url n k bid
+        = Ok (starbattle_prefix ++ py_str_int n ++ slash ++ py_str_int n ++ slash ++ py_str_int k ++ slash ++ text) /\
+      pzpr_decode_rooms (Z.to_nat n) (Z.to_nat n) text
+        = Some (concat (vg (Z.to_nat n) (Z.to_nat n) (rid_of rs)), concat (hg (Z.to_nat n) (Z.to_nat n) (rid_of rs))).
+Proof. exact starbattle_pzpr_reads. Qed.
+Print Assumptions starbattle_pzpr_agrees.
+
+(* ------------------------------------------------------------------ the five cell-grid modules end to end *)
+(* GridTotal.grid_codec_total sw dw ok pzpr: for EVERY h x w board (h, w >= 1) of ints whose cells satisfy ok,
+   serialize_<p>(board) returns https://puzz.link/p?<name>/<w>/<h>/<body> (no "serialization succeeds"
+   hypothesis), deserialize_<p> of that URL returns the board, and the independent pzpr decoder reads the body
+   as the board.  Domains: nurikabe, nurimisaki -1..4095; masyu 0..2; slitherlink -1..4; sudoku 0..4095. *)
+Theorem grid_codecs_end_to_end :
+  grid_codec_total serialize_nurikabe_w deserialize_nurikabe_w nurikabe_cell_ok pzpr_decode_nurikabe /\
+  grid_codec_total serialize_masyu_w deserialize_masyu_w masyu_cell_ok pzpr_decode_masyu /\
+  grid_codec_total serialize_slitherlink_w deserialize_slitherlink_w slither_cell_ok pzpr_decode_slitherlink /\
+  grid_codec_total serialize_sudoku_w deserialize_sudoku_w scell_ok pzpr_decode_sudoku /\
+  grid_codec_total serialize_nurimisaki_w deserialize_nurimisaki_w nurimisaki_cell_ok pzpr_decode_nurimisaki.
+Proof.
+  pose proof generated_wrappers_consistent as (H1 & H2 & H3 & H4 & H5 & _).
+  split; [|split; [|split; [|split]]].
+  - exact (grid_codec_total_intro serialize_nurikabe_w deserialize_nurikabe_w _ _ _ eq_refl ltac:(vm_compute; reflexivity)
+             eq_refl eq_refl H1 eq_refl ltac:(vm_compute; reflexivity) nurikabe_pzpr_agrees).
+  - exact (grid_codec_total_intro serialize_masyu_w deserialize_masyu_w _ _ _ eq_refl ltac:(vm_compute; reflexivity)
+             eq_refl eq_refl H2 eq_refl ltac:(vm_compute; reflexivity) masyu_pzpr_agrees).
+  - exact (grid_codec_total_intro serialize_slitherlink_w deserialize_slitherlink_w _ _ _ eq_refl ltac:(vm_compute; reflexivity)
+             eq_refl eq_refl H3 eq_refl ltac:(vm_compute; reflexivity) slitherlink_pzpr_agrees).
+  - refine (grid_codec_total_intro serialize_sudoku_w deserialize_sudoku_w _ _ _ eq_refl ltac:(vm_compute; reflexivity)
+             eq_refl eq_refl H4 eq_refl ltac:(vm_compute; reflexivity) _).
+    intros rows w Hne Hw Hrect Hall. destruct (sudoku_pzpr_agrees rows w Hne Hw Hrect Hall) as (body & Hs & _ & Hd).
+    exists body. split; [exact Hs|exact Hd].
+  - exact (grid_codec_total_intro serialize_nurimisaki_w deserialize_nurimisaki_w _ _ _ eq_refl ltac:(vm_compute; reflexivity)
+             eq_refl eq_refl H5 eq_refl ltac:(vm_compute; reflexivity) nurimisaki_pzpr_agrees).
+Qed.
+Print Assumptions grid_codecs_end_to_end.
+
+(* ------------------------------------------------------------------ the hypotheses are satisfiable: instances *)
+(* a 2 x 3 yajilin board with every kind of cell: "..", "??", ^0, <255, v4095 *)
+Example yajilin_instance_pzpr :
+  let rows := [[VStr s_dotdot; VStr s_qq; VStr (lit [94; 48]%nat)];
+               [VStr (lit [60; 50; 53; 53]%nat); VStr (lit [118; 52; 48; 57; 53]%nat); VStr s_dotdot]] in
+  let pb := VList (map VList rows) in
+  grid_shape 2 3 pb rows /\ Forall (Forall yajilin_cell_ok) rows /\
+  match run_ser_problem yajilin_custom serialize_yajilin_w pb with
+  | Ok url => run_de yajilin_custom deserialize_yajilin_w url = Ok (Some pb)
+  | Err _ => False
+  end /\
+  pzpr_decode_yajilin 2 3 (lit [97; 48; 46; 49; 48; 56; 102; 102; 45; 50; 102; 102; 102; 97]%nat) = Some pb.
+Proof.
+  split; [repeat split; repeat constructor|]. split; [exact (proj1 yajilin_instance)|].
+  split; vm_compute; reflexivity.
+Qed.
+
+(* the 1 x 2 board in one room (RoomsProofs.canonical_1x2): legacy and combinator text, pzpr flags *)
+Example rooms_instance :
+  let rs := [[(0, 0); (0, 1)]%nat] in
+  valid_rooms 1 2 rs /\
+  blocks_to_block_id 1 2 (map (map zcell) rs) = Ok [[0; 0]] /\
+  encode_grid_segmentation 1 2 [[0; 0]] = Ok ["0"%char] /\
+  serialize_problem LITS_COMBINATOR (rooms_to_pv rs) 1 2 = Ok ["0"%char] /\
+  pzpr_decode_rooms 1 2 ["0"%char] = Some ([0], []).
+Proof. split; [exact (proj1 canonical_1x2)|]. repeat split; vm_compute; reflexivity. Qed.
+
+(* slitherlink 2 x 4, masyu 2 x 2, nurikabe 1 x 3 with "?" *)
+Example grid_instances :
+  (let rows := [[-1; 3; -1; -1]; [0; -1; -1; 4]] in
+   Forall (Forall slither_cell_ok) rows /\
+   match serialize_problem SLITHERLINK_COMBINATOR (VList (int_rows rows)) 2 4 with
+   | Ok body => pzpr_decode_slitherlink 2 4 body = Some (VList (int_rows rows)) | Err _ => False end) /\
+  (let rows := [[0; 1]; [2; 2]] in
+   Forall (Forall masyu_cell_ok) rows /\
+   match serialize_problem MASYU_COMBINATOR (VList (int_rows rows)) 2 2 with
+   | Ok body => pzpr_decode_masyu 2 2 body = Some (VList (int_rows rows)) | Err _ => False end) /\
+  (let rows := [[-1; 0; 300]] in
+   Forall (Forall nurikabe_cell_ok) rows /\
+   match serialize_problem NURIKABE_COMBINATOR (VList (int_rows rows)) 1 3 with
+   | Ok body => pzpr_decode_nurikabe 1 3 body = Some (VList (int_rows rows)) | Err _ => False end).
+Proof.
+  split; [|split]; (split; [repeat constructor; unfold slither_cell_ok, masyu_cell_ok, nurikabe_cell_ok; lia|vm_compute; reflexivity]).
+Qed.
+
+(* heyawake 1 x 2, one room with the clue 7: border part (one flag, no vertical borders), then the room numbers *)
+Example heyawake_instance_pzpr :
+  let rs := [[(0, 0); (0, 1)]%nat] in
+  valid_rooms 1 2 rs /\
+  serialize_problem HEYAWAKE_COMBINATOR (VTup [rooms_to_pv rs; VList (map VInt [7])]) 1 2 = Ok ["0"; "7"]%char /\
+  pzpr_decode_heyawake_borders 1 2 ["0"; "7"]%char = Some ([0], [], ["7"%char]) /\
+  pzpr_decode_room_numbers 1 ["7"%char] = Some (map snd (by_least_cell (combine rs [7]))).
+Proof. split; [exact (proj1 canonical_1x2)|]. repeat split; vm_compute; reflexivity. Qed.
